@@ -817,7 +817,7 @@ def splice_body(em, body, c, fnid):
         em.add("    broadcast use crate::base::group_prefix;")
     if c.entry:
         for ln in c.entry:
-            em.add("    " + ln.strip())
+            em.add("    " + ln.strip(), origin="%s:hint" % fnid)
     for pos in cuts:
         emit_chunk(body[prev:pos])
         prev = pos
@@ -825,7 +825,7 @@ def splice_body(em, body, c, fnid):
             if blk[0] == "raw":
                 for ln in blk[1]:
                     if ln.strip():
-                        em.add("    " * depth + ln.strip())
+                        em.add("    " * depth + ln.strip(), origin="%s:hint" % fnid)
             else:
                 _, n, spec = blk
                 kw = "invariant_except_break" if spec["except_break"] else "invariant"
